@@ -25,16 +25,16 @@ def main(argv):
         else:
             ids.append(argv[i]); i += 1
     for pid in ids:
-        src = "/tmp/wt/mut_%s/_mut" % pid
+        src = "/tmp/wt/mut_%s/_mut" % pid[:3]
         names = sorted(n for n in os.listdir(src) if n.startswith("m") and os.path.isdir(os.path.join(src, n))) \
             if os.path.isdir(src) else []
         for n in names:
-            dst = os.path.join(VERIF, "seeded", "%s-%s" % (pid, n))
+            dst = os.path.join(VERIF, "seeded", "%s-%s" % (pid[:3], n))
             if not os.path.exists(dst):
                 os.makedirs(os.path.dirname(dst), exist_ok=True)
                 shutil.copytree(os.path.join(src, n), dst)
         for d in sorted(os.listdir(os.path.join(VERIF, "seeded"))):
-            if not d.startswith(pid + "-"):
+            if not (d.startswith(pid + "-") or d == pid):
                 continue
             seed = os.path.join(VERIF, "seeded", d)
             sys.stdout.flush()
